@@ -1043,6 +1043,12 @@ def reshape(it, a, newshape, order='C'):
         order = order.upper()
     if order not in ('C', 'F'):
         raise Unsupported("reshape order %r" % (order,))
+    # reshaping to the shape the array already has is the identity (no index arithmetic needed)
+    if a.rank == len(newshape) and all(dim_eq(x, y) is True for x, y in zip(a.shape, newshape)):
+        g0 = a.get
+        res = SArr(tuple(a.shape), lambda o: g0(o), a.dtype)
+        res.view_of = (a, [('all', z3.IntVal(0))] * a.rank)
+        return res
     # size check
     it.ctx.oblige("safety/reshape-size", to_num(a.size()) == to_num(SArr(newshape, None).size()))
     flat = flatten_fn(it, a, order)
